@@ -78,6 +78,27 @@ func (e *Engine) findAuthGuard(h *Handler) *authGuard {
 		} else if isReqField(ci.Y, h.ReqPar, "Authority") {
 			keeperSide = ci.X
 		} else {
+			// helper form: `if err := k.check(req.Authority); err != nil { return nil, err }`
+			var errv ssa.Value
+			if isNilConst(ci.Y) {
+				errv = ci.X
+			} else if isNilConst(ci.X) {
+				errv = ci.Y
+			}
+			if c, ok := errv.(*ssa.Call); ok && isErrorType(c.Type()) {
+				if H := c.Common().StaticCallee(); H != nil && isFx(H) && H.Blocks != nil {
+					for i, a := range c.Common().Args {
+						if isReqField(a, h.ReqPar, "Authority") {
+							if kv, ok := e.authChecker(H, i); ok {
+								g := &authGuard{If: iff, MatchPol: ci.Op == "==", KeeperVal: kv}
+								if found == nil || g.If.Block().Dominates(found.If.Block()) {
+									found = g
+								}
+							}
+						}
+					}
+				}
+			}
 			continue
 		}
 		if keeperSide == nil || !e.keeperAuthority(keeperSide, h.Fn.Params[0]) {
@@ -89,6 +110,68 @@ func (e *Engine) findAuthGuard(h *Handler) *authGuard {
 		}
 	}
 	return found
+}
+
+// authChecker: H(…, authority at parameter i, …) error compares that parameter with the keeper's authority, returns a
+// non-nil error on mismatch without any effect, and returns nil only on the match branch. Returns the keeper-side value.
+func (e *Engine) authChecker(H *ssa.Function, i int) (ssa.Value, bool) {
+	if i >= len(H.Params) || len(H.Params) == 0 {
+		return nil, false
+	}
+	par := H.Params[i]
+	effect := func(in ssa.Instruction) bool { return e.EffectOf(in) != "" }
+	hasEffect := false
+	allInstrs(H, func(in ssa.Instruction) {
+		if effect(in) {
+			hasEffect = true
+		}
+	})
+	if hasEffect {
+		return nil, false
+	}
+	for _, b := range H.Blocks {
+		if len(b.Instrs) == 0 {
+			continue
+		}
+		iff, ok := b.Instrs[len(b.Instrs)-1].(*ssa.If)
+		if !ok {
+			continue
+		}
+		ci, ok := NormCond(Guard{Cond: iff.Cond, Pol: true, If: iff})
+		if !ok || (ci.Op != "==" && ci.Op != "!=") || ci.X == nil || ci.Y == nil {
+			continue
+		}
+		var keeperSide ssa.Value
+		if stripConv(ci.X) == ssa.Value(par) {
+			keeperSide = ci.Y
+		} else if stripConv(ci.Y) == ssa.Value(par) {
+			keeperSide = ci.X
+		} else {
+			continue
+		}
+		if !e.keeperAuthority(keeperSide, H.Params[0]) {
+			continue
+		}
+		matchPol := ci.Op == "=="
+		if !BranchFailsClean(iff, !matchPol, effect) {
+			continue
+		}
+		matchBlk := b.Succs[1]
+		if matchPol {
+			matchBlk = b.Succs[0]
+		}
+		okAll := true
+		for _, ret := range SuccessReturns(H) {
+			rb := ret.Block()
+			if !((rb == matchBlk || matchBlk.Dominates(rb)) && edgeDominates(b, matchBlk, rb)) {
+				okAll = false
+			}
+		}
+		if okAll {
+			return keeperSide, true
+		}
+	}
+	return nil, false
 }
 
 func runC16(e *Engine, r *Report, tier string) {
